@@ -1159,6 +1159,15 @@ def _special_objects():
         return LinkedAsset(name='li', nodes=[Node('N')], portfolio=Portfolio([a1, a2]), asset1_variable=(a1, 'disp', Node('N')),
                            asset2_variable=(a2, 'disp', Node('N')), asset2_time_already_running='time_already_running')
     out['LinkedAsset'] = linked
+    def nested_grids():
+        # a portfolio with its own grid wrapping (in a structured asset) a portfolio that was used stand-alone on a finer grid before
+        inner = Portfolio([SimpleContract(name='a1', nodes=Node('N'), min_cap=-3, max_cap=3, price='p0'), Storage(name='a2', nodes=Node('N'), size=2, cap_in=1, cap_out=1)])
+        inner.set_timegrid(Timegrid(pd.Timestamp('2021-01-04 00:00'), pd.Timestamp('2021-01-04 06:00'), freq='15min', timezone='CET'))
+        st = StructuredAsset(name='st', nodes=[Node('N')], portfolio=inner)
+        pf = Portfolio([st, SimpleContract(name='m', nodes=Node('N'), min_cap=-5, max_cap=5, price='p0')])
+        pf.set_timegrid(Timegrid(pd.Timestamp('2021-01-04 00:00'), pd.Timestamp('2021-01-04 08:00'), freq='h'))
+        return pf
+    out['Portfolio_wrapping_a_portfolio_with_another_grid'] = nested_grids
     def dst_portfolio(which):
         def make():
             pf = Portfolio([SimpleContract(name='a1', nodes=Node('N'), min_cap=-3, max_cap=3, price='p0'), Storage(name='a2', nodes=Node('N'), size=2, cap_in=1, cap_out=1)])
